@@ -728,6 +728,10 @@ func init() {
 					// one change of every kind at a time, nothing else going on
 					return simpleCase(c, drv.RunPersistKindsCase(c.Seed, c.Idx%6 == 5), 3)
 				}
+				if c.Idx%3 == 1 {
+					// a change that happens while a graceful shutdown is waiting for another job
+					return simpleCase(c, drv.RunPersistDuringShutdownCase(int64(c.Idx/3)), 3)
+				}
 				return simpleCase(c, drv.RunPersistCase(c.Seed, c.Idx%2 == 1), 3)
 			}
 			nBin := tierN(c.Tier, 4, 24)
